@@ -26,13 +26,16 @@ RULE = ('(a) correspondence: generated well-nested histories (with-blocks, excep
         'trees); non-trivial = an exception is raised inside at least one modification. (b) sweep: trees = corpus programs '
         '(Module roots), ~110 hand-written special trees (non-Module roots of every parse mode, the special slice containers '
         '_ExceptHandlers/_match_cases/_arglikes/_Assign_targets/_decorator_list/_aliases/_withitems/_type_params/'
-        '_comprehensions/..., arguments of every shape incl. leading bare *, / first, only **kw) and containers / sub-roots cut '
+        '_comprehensions/..., arguments of every shape incl. leading bare *, / first, only **kw, blocks written on the header '
+        'line and elif chains, every spelling of `except *`), layout variants of all of these (blanks / line continuations '
+        'inserted or removed between adjacent tokens, same tree) and containers / sub-roots cut '
         'out of corpus programs by get_slice()/copy(). On each: sequences (k<=10) of invalid requests of 22 kinds mixed with '
         'valid edits through replace/put/put_slice/insert/append/prepend/extend/prextend/remove/attribute and item '
         'assignment/deletion, slice requests to the virtual fields (_all/_args/_bases/_body/_attrs), deletes of every field, '
         'requests on the root itself, raw puts and put_src(action=reparse) with text that breaks the source; plus systematic '
         'families on the small trees (delete every node and field; every position x every rule-breaking code of every slice '
-        'field). Every call that RAISES is judged: src, ast.dump(with positions) of the whole root and the AST<->FST node '
+        'field; every option x junk values (out-of-range ints, wrong types) x every entry-point family - insert/append/prepend/'
+        'extend/put/put_slice/delete/get_slice(cut)/replace/remove/cut - on every statement list). Every call that RAISES is judged: src, ast.dump(with positions) of the whole root and the AST<->FST node '
         'links identical, registry empty, following valid edit on the SAME tree (registry left as the failed call left it) '
         'identical to the same edit on a fresh twin and equal to a from-scratch parse. distinct = distinct (source, mode, '
         'request); all are non-trivial (the call raised)')
@@ -131,14 +134,20 @@ def correspondence(ctx):
 
 # ---- sweep ----------------------------------------------------------------------------------------------------------
 
-def _items(ctx, progs, n_seq, k, n_special, special_cap, n_derive, derive_cap):
+def _items(ctx, progs, n_seq, k, n_special, special_cap, n_derive, derive_cap, options_cap=160, layouts=2, layout_cap=40):
     """work items for c12_sweep.run_tree: corpus programs as Module trees (random sequences), the hand-written special
-    trees (non-Module roots, slice containers, every shape of arguments; random sequences + systematic families) and
-    containers / sub-roots cut out of corpus programs with get_slice()/copy()"""
+    trees (non-Module roots, slice containers, every shape of arguments, blocks on the header line, `except *` spellings;
+    random sequences + systematic families + the option x junk-value x entry-point family on their statement lists),
+    layout variants of the special trees (blanks / continuations between tokens), and containers / sub-roots cut out of
+    corpus programs with get_slice()/copy()"""
     items = [({'src': p, 'mode': 'exec'}, ctx.rng.randrange(1 << 30), n_seq, k, None, 0) for p in progs]
     for rep in range(n_special):
         for src, mode in c12_sweep.SPECIAL:
-            items.append(({'src': src, 'mode': mode}, ctx.rng.randrange(1 << 30), 2, k, None, special_cap if rep == 0 else 0))
+            spec = {'src': src, 'mode': mode}
+            if rep == 0:
+                spec['options_cap'] = options_cap
+            items.append((spec, ctx.rng.randrange(1 << 30), 2, k, None, special_cap if rep == 0 else 0))
+            items.append(({'src': src, 'mode': mode, 'layouts': layouts}, ctx.rng.randrange(1 << 30), 1, k, None, layout_cap))
     for p in progs[:n_derive]:
         items.append(({'src': p, 'derive': 3}, ctx.rng.randrange(1 << 30), 1, k, None, derive_cap))
     return items
@@ -171,8 +180,9 @@ def _run_sweep(ctx, items):
 
 def sweep(ctx):
     q = ctx.quick
-    progs = _programs(ctx, 300 if q else 3500, 14 if q else 250)
-    items = _items(ctx, progs, 2 if q else 3, 10, 1 if q else 4, 90 if q else 600, 70 if q else 1200, 25 if q else 80)
+    progs = _programs(ctx, 230 if q else 3000, 10 if q else 200)
+    items = _items(ctx, progs, 2 if q else 3, 10, 1 if q else 3, 70 if q else 500, 50 if q else 900, 25 if q else 80,
+                   options_cap=160 if q else 800, layouts=2 if q else 4, layout_cap=40 if q else 150)
     n_raise, n_ok = _run_sweep(ctx, items)
     ctx.notes['raising_calls_judged'] = n_raise
     ctx.notes['non_raising_calls'] = n_ok
